@@ -35,3 +35,13 @@ package metadatapart
 //@ ensures[C37:whole-object-read-not-refused] byteRange.Start == nil && byteRange.End == nil && err == storage.ErrInvalidRange ==>
 //@     called(mbs.partStores.ByName)
 //@ ensures[C37:empty-object-readable] byteRange.Start == nil && byteRange.End == nil && len(object.Parts) == 0 ==> err == nil
+
+// C03. Whatever an operation does to part stores, the metadata store, the registry or the dedup index, it does inside
+// its own transaction: every function of this package that is handed a transaction passes exactly that transaction
+// to every callee that takes one (never nil, never another one). The transaction controller (database.TxController,
+// contracts in internal/storage/database) then guarantees that a failed operation is rolled back as a whole,
+// staged part files included.
+//@ funcs having tx database.Tx except GetObject$1
+//@ mode effects
+//@ effect[C03:stays-in-its-transaction] every call passing database.Tx($t) where $t == tx
+//@ effect[C03:uses-its-sql-transaction] every call passing (*sql.Tx)($s) needs before tx.SqlTx() -> ($r) where $s == $r
